@@ -1,2 +1,48 @@
-From ZC Require Import Model.Base Model.Browser.
-Example C04_placeholder : True. Proof. exact I. Qed.
+(* C04 - browser callbacks alternate add/remove and always match the cache. Statements only.
+   Model/Browser.v: the browser as a record-update listener (pending-callback de-duplication) composed with the cache
+   (Model.Ingest) - tied to the real AsyncServiceBrowser by replaying every logged handler invocation through the model.
+   Vocabulary and hypotheses: Proofs/C04_defs.v (brun, live_after, cached_instances, events_of, alternates, hyp). *)
+From ZC Require Import Model.Base Model.PyRec Model.Dict Model.Cache Model.Ingest Model.Sched Model.Browser Gen.Const
+  Proofs.C04_enqueue Proofs.C04_defs Proofs.C04_browser Proofs.C04_listen.
+
+(* hyp types ls: browsed types pairwise different when lower-cased; every datagram as decoded; every PTR record has class IN and
+   an owner name that is exactly a browsed type or matches none (even up to case); no two PTR targets in one datagram differ only
+   in letter case. The browser is registered from the start on an empty cache (C04_live_listen covers a later start). *)
+
+(* at every quiescent point: the instances reported Added and not since Removed are - case-insensitively - exactly the pointer
+   records of that type held in the cache, and Added is never delivered for an instance already reported *)
+Theorem C04_live : forall types s ls n cbs,
+  hyp types ls -> brun (bnode_init types s) ls = Some (n, cbs) ->
+  forall ty, In ty types ->
+    (forall k, In k (live_after cbs ty) <-> In k (cached_instances (bn_cache n) ty)) /\ NoDup (live_after cbs ty).
+Proof. exact Proofs.C04_browser.C04_live. Qed.
+
+(* for every (type, instance) the Added / Removed callbacks alternate, starting with Added *)
+Theorem C04_alternate : forall types s ls n cbs,
+  hyp types ls -> brun (bnode_init types s) ls = Some (n, cbs) ->
+  forall ty k, alternates false (events_of cbs ty k).
+Proof. exact Proofs.C04_browser.C04_alternate. Qed.
+
+(* callbacks are delivered after the records of the triggering datagram are in the cache *)
+Theorem C04_after : forall types s ls now answers n cbs n' o,
+  hyp types (ls ++ [BResp now answers]) -> brun (bnode_init types s) ls = Some (n, cbs) ->
+  bstep n (BResp now answers) = Some (n', o) ->
+  forall name ty, In ((name, ty), Added) (bo_callbacks o) -> In (lower name) (cached_instances (bn_cache n') ty).
+Proof. exact Proofs.C04_browser.C04_after. Qed.
+
+(* the de-duplication rule of one datagram: Added beats Removed beats Updated *)
+Theorem C04_precedence : forall (ops : list op) (name ty : text),
+  d_get pkey_eqb (enqueue_all [] ops) (name, ty)
+  = if enqueued Added ty name ops then Some Added
+    else if enqueued Removed ty name ops then Some Removed
+    else if enqueued Updated ty name ops then Some Updated else None.
+Proof. exact enqueue_precedence. Qed.
+
+Print Assumptions C04_live.
+Print Assumptions C04_alternate.
+Print Assumptions C04_after.
+Print Assumptions C04_precedence.
+Check C04_live_listen.
+Check C04_alternate_listen.
+Print Assumptions C04_live_listen.
+Print Assumptions C04_alternate_listen.
